@@ -60,6 +60,60 @@ fn special_position(rng: &mut Rng) -> Pos {
     }
 }
 
+/// A valid position that differs from `p` in exactly one component (ep target, one castling right,
+/// side to move, move counters, one piece removed / relocated): a hash or cache that conflates the
+/// two would make an answer computed for one surface for the other.
+fn sibling_of(p: &Pos, rng: &mut Rng) -> Option<Pos> {
+    use crate::oracle::{kind, K, NO_EP};
+    for _ in 0..12 {
+        let mut q = p.clone();
+        match rng.below(7) {
+            0 if p.ep != NO_EP => q.ep = NO_EP,
+            1 if p.castle != 0 => {
+                let bits: Vec<u8> = (0..4).map(|i| 1u8 << i).filter(|b| p.castle & b != 0).collect();
+                q.castle &= !*rng.pick(&bits);
+            }
+            2 if p.castle != 0 => q.castle = 0,
+            3 => {
+                q.stm ^= 1;
+                q.ep = NO_EP;
+            }
+            4 => {
+                q.half = *rng.pick(&[0u32, 7, 99, 100]);
+                q.full = *rng.pick(&[1u32, 77, 300]);
+            }
+            5 => {
+                let occupied: Vec<usize> = (0..64).filter(|&s| p.sq[s] != 0 && kind(p.sq[s]) != K).collect();
+                if occupied.is_empty() {
+                    continue;
+                }
+                q.sq[*rng.pick(&occupied)] = 0;
+                q.ep = NO_EP;
+            }
+            6 => {
+                let occupied: Vec<usize> = (0..64).filter(|&s| p.sq[s] != 0 && kind(p.sq[s]) != K).collect();
+                if occupied.is_empty() {
+                    continue;
+                }
+                let from = *rng.pick(&occupied);
+                let to = rng.below(64) as usize;
+                if q.sq[to] != 0 {
+                    continue;
+                }
+                q.sq[to] = q.sq[from];
+                q.sq[from] = 0;
+                q.ep = NO_EP;
+            }
+            _ => continue,
+        }
+        // rights must stay consistent with the placement
+        if q.validity().is_ok() && q.key() != p.key() || (q.validity().is_ok() && (q.half != p.half || q.full != p.full)) {
+            return Some(q);
+        }
+    }
+    None
+}
+
 fn new_game(rng: &mut Rng) -> GameState {
     match rng.below(10) {
         0..=3 => {
@@ -137,8 +191,15 @@ fn c03_session(ctx: &Ctx, rng: &mut Rng, st: &mut Stats, session_no: u64) {
                 st.bump("jumps_to_an_unrelated_game");
             }
             7 => {
-                cur = rng.below(games.len() as u64) as usize;
-                st.bump("returns_to_an_earlier_game");
+                if rng.chance(1, 2) {
+                    cur = rng.below(games.len() as u64) as usize;
+                    st.bump("returns_to_an_earlier_game");
+                } else if let Some(sib) = sibling_of(&games[cur].cur, rng) {
+                    // a position differing from the one just searched in a single component
+                    games.push(GameState { head: format!("position fen {}", sib.to_fen()), moves: vec![], cur: sib });
+                    cur = games.len() - 1;
+                    st.bump("jumps_to_a_sibling_position");
+                }
             }
             8 => {
                 script.push("ucinewgame".into());
@@ -246,19 +307,199 @@ fn c03_session(ctx: &Ctx, rng: &mut Rng, st: &mut Stats, session_no: u64) {
     eng.quit();
 }
 
+/// Dedicated sibling-pair session: search P (where an en-passant capture, a castle or a capture of
+/// a piece that the sibling lacks is attractive), then search its sibling no deeper on the same
+/// process; every answer must be legal in the position it was asked about.
+fn c03_sibling_session(ctx: &Ctx, rng: &mut Rng, st: &mut Stats) {
+    let base = match rng.below(4) {
+        0 | 1 => gen::g_ep(rng),
+        2 => gen::g_castle(rng),
+        _ => gen::g_small(rng, 8),
+    };
+    let sib = match sibling_of(&base, rng) {
+        Some(x) => x,
+        None => return,
+    };
+    let mut eng = match bb::Engine::spawn(&ctx.engine_bin) {
+        Ok(e) => e,
+        Err(e) => {
+            st.inconclusive.push(format!("cannot start the engine binary: {}", e));
+            return;
+        }
+    };
+    let men = base.piece_count();
+    let d1 = if men <= 8 { rng.range(3, 6) } else if men <= 16 { rng.range(3, 4) } else { 3 };
+    let order: Vec<(&Pos, i64)> = if rng.chance(1, 2) { vec![(&base, d1), (&sib, rng.range(1, d1)), (&base, rng.range(1, d1))] } else { vec![(&sib, d1), (&base, rng.range(1, d1)), (&sib, rng.range(1, d1))] };
+    let mut script: Vec<String> = vec![];
+    for (i, (p, d)) in order.iter().enumerate() {
+        let pos_cmd = format!("position fen {}", p.to_fen());
+        let go = format!("go depth {}", d);
+        script.push(pos_cmd.clone());
+        script.push(go.clone());
+        let legal: Vec<String> = p.legal_moves().iter().map(|m| m.uci()).collect();
+        let case = J::obj(vec![("kind", J::s("session")), ("commands", J::arr_s(script.clone())), ("position", J::s(p.to_fen()))]);
+        st.case(hash64(&(script.clone(), 33u8)), i > 0);
+        st.bump("go_commands");
+        st.bump("go_depth");
+        if i > 0 {
+            st.bump("go_after_earlier_searches_in_process");
+            st.bump("sibling_pairs_searched");
+        }
+        match eng.command(&pos_cmd, Duration::from_secs(30)).and_then(|_| eng.command(&go, Duration::from_secs(120))) {
+            Ok(lines) => {
+                let bms: Vec<&String> = lines.iter().filter(|l| l.starts_with("bestmove")).collect();
+                let ans = bms.first().and_then(|l| l.split_whitespace().nth(1)).unwrap_or("").to_string();
+                let ok = bms.len() == 1 && if legal.is_empty() { ans == "0000" } else { legal.contains(&ans) };
+                if !ok {
+                    st.violation(
+                        format!("C03:illegal-after-sibling:{}:{}", script.join(";"), ans),
+                        format!("'{}' on {} answered '{}' ({} bestmove lines), which is not a legal move there; earlier in the same process the sibling position {} was searched", go, p.to_fen(), ans, bms.len(), order[0].0.to_fen()),
+                        case,
+                    );
+                    break;
+                }
+            }
+            Err(bb::Fail::Died(status)) => {
+                st.violation(format!("C03:died:{}:{}", pos_cmd, go), format!("the engine process ended ({}) instead of answering '{}' on {}", status, go, p.to_fen()), case);
+                return;
+            }
+            Err(bb::Fail::Timeout) => {
+                st.inconclusive.push(format!("no answer to '{}' on {} within 120 s", go, p.to_fen()));
+                return;
+            }
+        }
+    }
+    eng.quit();
+}
+
+/// In-process part (hook build): the deadline of a `go` is placed, deterministically, after every
+/// node count L (or at the n-th deadline poll) of a depth-limited search, on ONE engine that keeps
+/// its tables across all these interrupted searches; the answer recorded by the hook must be a
+/// legal move each time (none exactly when the position has no legal move).
+fn c03_inprocess(ctx: &Ctx) -> Stats {
+    use crate::uci::Flounder;
+    let n_pos = ctx.budget(48, 1200);
+    let max_points = ctx.budget(200, 1500);
+    parallel(ctx.workers, |w| {
+        let mut st = Stats::new();
+        let mut rng = Rng::new(ctx.seed, 3500 + w as u64);
+        for i in 0..(n_pos / ctx.workers as u64 + 1) {
+            if ctx.out_of_time() {
+                break;
+            }
+            let p = match i % 5 {
+                0 => special_position(&mut rng),
+                1 => gen::g_small(&mut rng, 8),
+                2 => gen::g_explode(&mut rng),
+                _ => gen::g_game_pos(&mut rng),
+            };
+            let legal: Vec<String> = p.legal_moves().iter().map(|m| m.uci()).collect();
+            let d = if p.piece_count() > 16 { 2 } else { 3 };
+            let pos_cmd = format!("position fen {}", p.to_fen());
+            let go = format!("go depth {}", d);
+            let mut e = Flounder::new();
+            let ok = {
+                let e = &mut e;
+                engine_call(|| {
+                    e.verif_handle_command(&pos_cmd);
+                    e.verif_searcher().verif_timer().hard_cap = Some(3_000_000);
+                    e.verif_handle_command(&go);
+                    (e.verif_searcher().verif_nodes(), e.verif_searcher().verif_polls())
+                })
+            };
+            let (total, total_polls) = match ok {
+                Ok(x) => x,
+                Err(_) => {
+                    st.bump("inprocess_skipped_search_too_large");
+                    continue;
+                }
+            };
+            let mut e = Flounder::new();
+            {
+                let e = &mut e;
+                if engine_call(|| e.verif_handle_command(&pos_cmd)).is_err() {
+                    continue;
+                }
+            }
+            let mut points: Vec<(bool, u64)> = vec![];
+            if total <= max_points {
+                points.extend((1..=total + 1).map(|l| (false, l)));
+            } else {
+                for k in 0..max_points {
+                    let lo = 1 + total * k / max_points;
+                    let hi = (total * (k + 1) / max_points).max(lo);
+                    points.push((false, rng.range(lo as i64, hi as i64) as u64));
+                }
+            }
+            for _ in 0..(max_points / 8) {
+                points.push((true, rng.range(1, total_polls.max(1) as i64) as u64));
+            }
+            rng.shuffle(&mut points);
+            for (by_poll, l) in points {
+                let r = {
+                    let e = &mut e;
+                    engine_call(|| {
+                        {
+                            let t = e.verif_searcher().verif_timer();
+                            t.node_limit = if by_poll { None } else { Some(l) };
+                            t.poll_limit = if by_poll { Some(l) } else { None };
+                            t.hard_cap = Some(total * 4 + 100_000);
+                        }
+                        e.verif.last_bestmove = None;
+                        e.verif_handle_command(&go);
+                        e.verif.last_bestmove.clone()
+                    })
+                };
+                let case = || J::obj(vec![("kind", J::s("inprocess")), ("fen", J::s(p.to_fen())), ("go", J::s(go.clone())), ("deadline_kind", J::s(if by_poll { "poll" } else { "node" })), ("deadline_at", J::i(l as i64))]);
+                st.case(hash64(&(p.key(), d, by_poll, l)), l <= total);
+                st.bump("inprocess_go_with_deterministic_deadline");
+                st.sample_tagged("inprocess", case);
+                match r {
+                    Err(msg) => {
+                        st.violation(format!("C03:inprocess-panic:{}:{}:{}", p.to_fen(), by_poll, l), format!("'{}' on {} with the deadline at {} {} panicked: {}", go, p.to_fen(), if by_poll { "poll" } else { "node" }, l, msg), case());
+                        break;
+                    }
+                    Ok(None) => {
+                        st.violation(format!("C03:inprocess-no-answer:{}:{}:{}", p.to_fen(), by_poll, l), format!("'{}' on {} with the deadline at {} {} produced no bestmove", go, p.to_fen(), if by_poll { "poll" } else { "node" }, l), case());
+                    }
+                    Ok(Some(ans)) => {
+                        let good = match &ans {
+                            None => legal.is_empty(),
+                            Some(m) => legal.contains(m),
+                        };
+                        if !good {
+                            st.violation(
+                                format!("C03:inprocess-answer:{}:{}:{}", p.to_fen(), by_poll, l),
+                                format!("'{}' on {} with the deadline at {} {} answered {:?}; legal moves: {}", go, p.to_fen(), if by_poll { "poll" } else { "node" }, l, ans, legal.len()),
+                                case(),
+                            );
+                        }
+                    }
+                }
+            }
+            st.bump("inprocess_positions");
+        }
+        st
+    })
+}
+
 pub fn run_c03(ctx: &Ctx) -> i32 {
     let spec = Spec {
         level: "exploration",
-        rule: "a case is one 'go' inside a session on ONE process of the real release binary: sessions of 5..40 gos mix self-play continuation (the engine's own answers are appended to the move list), jumps to unrelated games and back without ucinewgame, occasional ucinewgame, mates / stalemates / single-move positions and promotion / en-passant / castling studies, and parameter sets depth 1..5, movetime {0,1,2,5,20,50}, clocks around the 5 s reserve with increments in shuffled token order. Each go must be answered by exactly one bestmove line naming a legal move of the position last set (0000 exactly when there is none); a process that dies is a violation, one that does not answer within 120 s is inconclusive. Distinct by (session, index, commands); non-trivial when earlier searches ran in the same process",
+        rule: "a case is one 'go' inside a session on ONE process of the real release binary: sessions of 5..40 gos mix self-play continuation (the engine's own answers are appended to the move list), jumps to unrelated games and back without ucinewgame, jumps to sibling positions (equal to one just searched except for the ep target, one castling right, the side to move, the counters or one piece) and dedicated sibling-pair sessions (deep search of P, then shallower search of its sibling), occasional ucinewgame, mates / stalemates / single-move positions and promotion / en-passant / castling studies, and parameter sets depth 1..5, movetime {0,1,2,5,20,50}, clocks around the 5 s reserve with increments in shuffled token order. Each go must be answered by exactly one bestmove line naming a legal move of the position last set (0000 exactly when there is none); a process that dies is a violation, one that does not answer within 120 s is inconclusive. In-process part (hook build of the same sources): on one engine that keeps its tables, 'go depth d' is interrupted by a deterministic deadline after every node count (small searches) or a stratified sample, and at sampled deadline polls; the answer recorded by the hook must be legal every time. Distinct by (session, index, commands); non-trivial when earlier searches ran in the same process",
         assumptions: vec!["the reference rules implementation is correct (perft self-test at every run)".into(), "'go infinite' and parameterless 'go' are not sent (the engine has no stop command to end them)".into()],
-        required: if ctx.replay.is_some() { vec![] } else { vec!["go_depth", "go_movetime", "go_movetime_0", "go_clock", "go_on_position_without_legal_move", "go_on_position_with_single_legal_move", "go_after_earlier_searches_in_process", "jumps_to_an_unrelated_game", "returns_to_an_earlier_game", "ucinewgame_in_session"] },
+        required: if ctx.replay.is_some() { vec![] } else { vec!["go_depth", "go_movetime", "go_movetime_0", "go_clock", "go_on_position_without_legal_move", "go_on_position_with_single_legal_move", "go_after_earlier_searches_in_process", "jumps_to_an_unrelated_game", "returns_to_an_earlier_game", "jumps_to_a_sibling_position", "sibling_pairs_searched", "ucinewgame_in_session", "inprocess_go_with_deterministic_deadline"] },
         exhaustive: false,
         extra: vec![],
     };
     if let Some(r) = ctx.replay.as_ref() {
         let mut st = Stats::new();
         if let Some(c) = r.get("case") {
-            replay_session(ctx, c, &mut st, "C03");
+            if c.str_of("kind") == "inprocess" {
+                replay_inprocess(c, &mut st);
+            } else {
+                replay_session(ctx, c, &mut st, "C03");
+            }
         }
         return finalize(ctx, spec, st);
     }
@@ -296,10 +537,49 @@ pub fn run_c03(ctx: &Ctx) -> i32 {
                 break;
             }
             c03_session(ctx, &mut rng, &mut st, (w as u64) << 32 | i);
+            for _ in 0..3 {
+                c03_sibling_session(ctx, &mut rng, &mut st);
+            }
         }
         st
     });
+    let mut total = total;
+    total.merge(c03_inprocess(ctx));
     finalize(ctx, spec, total)
+}
+
+fn replay_inprocess(c: &J, st: &mut Stats) {
+    use crate::uci::Flounder;
+    let p = match Pos::from_fen(&c.str_of("fen")) {
+        Ok(p) => p,
+        Err(_) => {
+            st.inconclusive.push("replay: bad fen".into());
+            return;
+        }
+    };
+    let legal: Vec<String> = p.legal_moves().iter().map(|m| m.uci()).collect();
+    let go = c.str_of("go");
+    let l = c.int_of("deadline_at") as u64;
+    let by_poll = c.str_of("deadline_kind") == "poll";
+    let mut e = Flounder::new();
+    st.case(1, true);
+    st.case(2, true);
+    let r = {
+        let e = &mut e;
+        engine_call(|| {
+            e.verif_handle_command(&format!("position fen {}", p.to_fen()));
+            let t = e.verif_searcher().verif_timer();
+            t.node_limit = if by_poll { None } else { Some(l) };
+            t.poll_limit = if by_poll { Some(l) } else { None };
+            e.verif_handle_command(&go);
+            e.verif.last_bestmove.clone()
+        })
+    };
+    match r {
+        Ok(Some(Some(m))) if legal.contains(&m) => {}
+        Ok(Some(None)) if legal.is_empty() => {}
+        other => st.violation("C03:replay:inprocess", format!("answer {:?} on {} (fresh engine; the original run had searched the position before)", other, p.to_fen()), c.clone()),
+    }
 }
 
 /// Replays a recorded session script against the real binary, judging every go with the C03 oracle.
@@ -412,7 +692,16 @@ fn depth_script(rng: &mut Rng, thorough: bool, allow_bare_go: bool) -> Vec<Strin
 fn prefix_script(rng: &mut Rng) -> Vec<String> {
     let mut s = vec![];
     for _ in 0..rng.range(1, 4) {
-        match rng.below(4) {
+        match rng.below(6) {
+            4 | 5 => {
+                // a game from the start position that shuffles pieces out and back, so positions a
+                // few plies from the start are on record two or three times; sometimes searched
+                let g = crate::props::position::repeat_game_from(rng, Some(true));
+                s.push(g.command(None));
+                if rng.chance(1, 2) {
+                    s.push(format!("go depth {}", rng.range(1, 3)));
+                }
+            }
             0 => {
                 let m = rng.range(10, 120) as usize;
                 let (_, ms) = gen::playout(&Pos::start(), rng, m);
@@ -453,7 +742,7 @@ fn first_difference(a: &[String], b: &[String]) -> String {
 pub fn run_c13(ctx: &Ctx) -> i32 {
     let spec = Spec {
         level: "exploration",
-        rule: "cases: (a) a depth-limited script (2..7 position/go depth 3..6 commands on middlegames) run in N separate processes of the real binary — each draws its own random hash keys — must give byte-identical transcripts once the time and nps fields are removed; (b) in-process, K fresh searchers (K key sets) must agree on (score, move, node count) for each (position, depth); (c) the transcript of a script after 'prefix; ucinewgame' (prefix: searches, time-limited searches, long position histories; the script may start with a bare go) must equal its transcript in a fresh process. Distinct by script / (position, depth); all non-trivial (every case compares at least two executions)",
+        rule: "cases: (a) a depth-limited script (2..7 position/go depth 3..6 commands on middlegames) run in N separate processes of the real binary — each draws its own random hash keys — must give byte-identical transcripts once the time and nps fields are removed; (b) in-process, K fresh searchers (K key sets) must agree on (score, move, node count) for each (position, depth); (c) the transcript of a script after 'prefix; ucinewgame' (prefix: searches, time-limited searches, long position histories, games from the start position that repeat positions two or three times; the script often starts with a bare go, which searches the start position) must equal its transcript in a fresh process. Distinct by script / (position, depth); all non-trivial (every case compares at least two executions)",
         assumptions: vec!["key sets not drawn in this run are not covered".into(), "only depth-limited searches are compared (time-limited ones legitimately depend on the machine)".into()],
         required: if ctx.replay.is_some() { vec![] } else { vec!["scripts_compared_across_processes", "process_pairs_compared", "key_set_groups_compared", "ucinewgame_scripts_compared", "ucinewgame_scripts_starting_with_bare_go"] },
         exhaustive: false,
@@ -528,7 +817,11 @@ pub fn run_c13(ctx: &Ctx) -> i32 {
                 break;
             }
             let prefix = prefix_script(&mut rng);
-            let suffix = depth_script(&mut rng, false, true);
+            let mut suffix = depth_script(&mut rng, false, true);
+            if rng.chance(1, 3) && !suffix[0].starts_with("go") {
+                // start with a bare go (ucinewgame has reset the board to the start position)
+                suffix.insert(0, format!("go depth {}", rng.range(3, 5)));
+            }
             let mut full = prefix.clone();
             full.push("ucinewgame".into());
             let from = full.len();
